@@ -51,6 +51,8 @@ CONC_EXPECT = [
     ("trywait_at_zero", "-11", "uv_sem_trywait at value zero returned %s"),
     ("sem_passed_after_posts", "6", "%s of 6 waiters passed after 3 + 3 posts"),
     ("once_guards_not_run_exactly_once", "0", "uv_once ran its function not exactly once for %s of 200 raced guards"),
+    ("once_returned_while_init_running", "0", "uv_once returned to %s thread(s) while the init function was still running (8 threads, 3 fresh guards)"),
+    ("once_slow_guards_not_run_exactly_once", "0", "uv_once with a slow init function ran it not exactly once for %s of 3 guards"),
     ("barrier_early_leavers", "0", "%s threads left uv_barrier_wait before all 4 had arrived"),
     ("barrier_rounds_without_exactly_one_nonzero", "0", "%s barrier rounds without exactly one non-zero return"),
     ("key_values_not_private", "0", "uv_key values leaked between threads (%s observations)"),
@@ -431,14 +433,19 @@ def main():
     # by-value arguments of the init wrappers are part of the case
     pc = [n + (" %d" % chk.rng.randint(0, 1000) if n == "uv_sem_init" else
                " %d" % chk.rng.randint(1, 64) if n == "uv_barrier_init" else "") for n in pc]
+    # every uv_once call is a pthread_once call on the same guard: also the 2nd, 3rd .. call on a completed
+    # guard and a call racing with a running init function
+    pc_extra = ["uv_once 2", "uv_once 3", "uv_once %d" % chk.rng.randint(4, 40), "uv_once_racing"]
+    pc = pc + pc_extra
     a, b = both("pass", pc, [hpass], shards=1)
 
     def pass_monitor(case, line):
         return "%s calls %s (expected exactly one call of the mapped pthread function on the same object)" \
-            % (case, line) if sum(1 for x in line.split() if ":1" in x) != 1 or ":1" not in line.split()[-1] else None
+            % (case, line) if sum(1 for x in line.split() if ":1" in x) != (2 if case == "uv_once_racing" else 1) \
+            or ":1" not in line.split()[-1] else None
     vf.diff_cases(chk, "thread.c wrappers -> pthread calls = Model/Thread.v passthrough", pc, a, b, pass_monitor)
     chk.cov["passthrough_wrappers"] = len(pc)
-    if len(pc) != 34:
+    if len(pc) - len(pc_extra) != 34:
         chk.violation("pass-through table has %d entries, 34 expected" % len(pc), {"kind": "correspondence"}, found_input=False)
     # the same table against the library built WITHOUT NDEBUG (uv_mutex_init asks for an error-checking mutex)
     hconcd = None
